@@ -229,6 +229,10 @@ namespace nmtools::array
                     result = view.op(result,inp_data_ptr[i]);
                 }
 
+                if constexpr (!is_none_v<decltype(view.initial)>) {
+                    result = view.op(static_cast<element_type>(view.initial),result);
+                }
+
                 if constexpr (meta::is_num_v<output_t>) {
                     output = result;
                 } else {
@@ -347,6 +351,11 @@ namespace nmtools::array
                 default: {
                     return false;
                 } break;
+                }
+                if constexpr (!is_none_v<decltype(view.initial)>) {
+                    for (size_t i=0; i<out_size; i++) {
+                        out_data_ptr[i] = view.op(static_cast<element_type>(view.initial),out_data_ptr[i]);
+                    }
                 }
                 return true;
             }
